@@ -181,6 +181,12 @@ func (o *Overlay) TransmitMsg(onetMsg *ProtocolMsg, io MessageProxy) error {
 		// the last instance using the tree may have finished since the lookup
 		// above and scheduled the removal of the tree: the new instance needs it
 		o.treeStorage.Set(tree)
+		// the tree may even have been released and requested again since the
+		// lookup: messages parked meanwhile wait for it, and the peer's answer
+		// will be refused now that the tree is stored
+		if o.hasPendingMsg(tree.ID) {
+			o.checkPendingMessages(tree)
+		}
 		// retrieve the possible generic config for this message
 		config := o.getConfig(onetMsg.To.ID())
 		if config == nil {
@@ -314,6 +320,18 @@ func (o *Overlay) checkPendingTreeMarshal(el *Roster) {
 	// them again (e.g. after the tree has been removed)
 	delete(o.pendingTreeMarshal, el.ID)
 	o.pendingTreeLock.Unlock()
+}
+
+// hasPendingMsg tells whether a protocol message is parked for that tree.
+func (o *Overlay) hasPendingMsg(id TreeID) bool {
+	o.pendingMsgLock.Lock()
+	defer o.pendingMsgLock.Unlock()
+	for _, msg := range o.pendingMsg {
+		if msg.To != nil && id.Equal(msg.To.TreeID) {
+			return true
+		}
+	}
+	return false
 }
 
 func (o *Overlay) savePendingMsg(onetMsg *ProtocolMsg, io MessageProxy) {
